@@ -93,6 +93,20 @@ def symbolic_contracts(chk):
     d = doi._KeyedDefaultDict(lambda k: seen.append(k) or [k])
     ok = d["a"] == ["a"] and d["a"] == ["a"] and seen == ["a"] and "a" in d
     chk.record("KeyedDefaultDict:factory_called_with_key_once_and_cached", fk_k, "proved" if ok else "refuted", "concrete-exec", model={})
+    # the real mapping with the real factory: an unknown key raises KeyError on every lookup and leaves no entry behind
+    d2 = doi._KeyedDefaultDict(doi._doi_shape_collection_factory)
+    outcomes = []
+    for _ in range(3):
+        try:
+            d2["10.0000/unknown"]
+            outcomes.append("returned")
+        except KeyError:
+            outcomes.append("KeyError")
+    ok = outcomes == ["KeyError"] * 3 and "10.0000/unknown" not in d2 and len(d2) == 0
+    chk.record("KeyedDefaultDict+factory:unknown_key_raises_every_time_and_is_not_stored", fk_k, "proved" if ok else "refuted",
+               "concrete-exec", model={}, detail=str(outcomes) + f" stored={list(d2)}",
+               replay=lambda m: (True, {"operations": ["DOI_SHAPE_REPOSITORIES['10.0000/unknown'] three times"], "outcomes": outcomes,
+                                        "keys_afterwards": [str(k) for k in d2]}))
 
 
 def run(chk):
@@ -167,11 +181,15 @@ def run(chk):
                 ia, ib = shape.iq, index[cited].iq
                 if not same or abs(ia - ib) > 1e-6:
                     fails.append((f"science1220869/{key}:coincides_with_{cited}", {"repo": a, "family": b, "iq": [float(ia), float(ib)]}))
-        try:
-            F.DOI_SHAPE_REPOSITORIES["10.0000/not-a-doi"]
-            fails.append(("DOI:unknown", {"note": "no KeyError"}))
-        except KeyError:
-            pass
+        before = len(F.DOI_SHAPE_REPOSITORIES)
+        for attempt in (1, 2, 3):
+            try:
+                got = F.DOI_SHAPE_REPOSITORIES["10.0000/not-a-doi"]
+                fails.append((f"DOI:unknown(lookup #{attempt})", {"note": "no KeyError", "returned": repr(got)[:80]}))
+            except KeyError:
+                pass
+        if "10.0000/not-a-doi" in F.DOI_SHAPE_REPOSITORIES or len(F.DOI_SHAPE_REPOSITORIES) != before:
+            fails.append(("DOI:unknown_leaves_no_entry", {"keys": [str(k) for k in F.DOI_SHAPE_REPOSITORIES.keys()]}))
         for doi_, k in (("10.1103/PhysRevX.4.011024", 3), ("10.1021/nn204012y", 1)):
             if len(F.DOI_SHAPE_REPOSITORIES[doi_]) != k:
                 fails.append((f"DOI:{doi_}", {"families": len(F.DOI_SHAPE_REPOSITORIES[doi_])}))
